@@ -107,6 +107,10 @@ DIRECTED = [
     ("startdt", "enq", "i_good", "stopdt", "testfr_act", "s_good", "testfr_act"),
     ("enq", "enq", "startdt", "s_partial", "stopdt", "s_good"),
     ("startdt", "startdt", "enq", "stopdt", "stopdt", "s_good", "stopdt"),
+    # the k-buffer ring index wraps (a partial acknowledgement, then more events: newest slot below oldest slot) before STOPDT act
+    ("startdt", "enq", "enq", "enq", "s_partial", "enq", "enq", "stopdt", "s_partial", "s_good"),
+    ("startdt", "enq", "enq", "s_good", "enq", "enq", "enq", "s_partial", "enq", "stopdt", "testfr_act", "s_good", "startdt", "enq"),
+    ("startdt", "cmd", "enq", "enq", "s_partial", "cmd", "enq", "stopdt", "s_partial", "s_partial", "s_good"),
     ("i_good",), ("s_good",), ("startdt", "i_badns"), ("startdt", "s_bad"), ("startdt", "enq", "disc"),
 ]
 
